@@ -179,7 +179,11 @@ class Scratch:
         d = os.path.join(self.dir, "emit", "%s.%s" % (probe, cfg))
         os.makedirs(d, exist_ok=True)
         lsrc = os.path.join(VERIF, "probes", pinfo["file"])
-        shutil.copy(lsrc, os.path.join(d, "probe.l"))
+        ltxt = open(lsrc).read()
+        sc = "" if cfg == "nr" else "yyscanner"
+        ltxt = ltxt.replace("@SC@", (", " + sc) if sc else "").replace("@SC1@", sc)
+        with open(os.path.join(d, "probe.l"), "w") as f:
+            f.write(ltxt)
         cmd = [self.flex, "-L"] + CFG_OPTS[cfg] + pinfo["opts"] + ["-o", "scanner.c", "probe.l"]
         rc, o, t = run(cmd, cwd=d, timeout=120, mem=False)
         res = {"rc": rc, "out": o, "path": os.path.join(d, "scanner.c"), "dir": d,
@@ -253,6 +257,12 @@ def splice_unit(u, scratch, probes, wdir):
         text, rlog = vsplice.rewrite_defines(text, rules)
         info["rewrites"] = rlog
     c = vsplice.CFile(text, origin)
+    tagdefs = "".join("#define VP_TAG_%s 1\n" % re.sub(r"\W", "_", t) for t in sorted(tags))
+    for d in u.get("defs", "").split(";;"):
+        if d.strip():
+            k, _, v = d.strip().partition("=")
+            tagdefs += "#define %s %s\n" % (k.strip(), v.strip())
+    c.add_top(tagdefs)
     harness_name = u.get("harness")
     harness_text = None
     nloops = 0
@@ -299,8 +309,6 @@ def splice_unit(u, scratch, probes, wdir):
                 c.add_before_anchor(fn, b.args[1], b.text, after=(k == "after"))
     if harness_name and harness_text is None:
         raise vsplice.SpliceError("unit %s: harness %s not found" % (u["uid"], harness_name))
-    tagdefs = "".join("#define VP_TAG_%s 1\n" % re.sub(r"\W", "_", t) for t in sorted(tags))
-    c.add_top(tagdefs)
     if harness_text:
         c.add_end(harness_text)
     out = c.render()
@@ -466,6 +474,14 @@ def run_unit(u, scratch, probes, tier):
             canary_seen = True
             if st == "FAILURE":
                 canary_failed = True
+            continue
+        if not p.get("sourceLocation", {}).get("function") and name.startswith("overflow."):
+            # arithmetic inside a file-scope initializer (c99 back end:
+            # `const int YY_BUF_SIZE = 2 * YY_READ_BUF_SIZE;`): CBMC evaluates
+            # such non-constant initializers with the operand unconstrained.
+            # Not code of any function; the object then has an arbitrary value,
+            # which only generalises the proofs.  Counted separately.
+            res.setdefault("static_init_obligations_excluded", []).append(desc)
             continue
         if "loop_invariant_step" in name or "loop invariant is preserved" in desc:
             loopstep += 1
